@@ -149,6 +149,9 @@ pub(crate) enum Message {
     /// verif-hooks: run a read-only closure under the pool's read lock
     #[cfg(feature = "verif-hooks")]
     VerifRead(Request<VerifReadFn, ()>),
+    /// verif-hooks: the block assembler's size bookkeeping next to the real sizes of its template
+    #[cfg(feature = "verif-hooks")]
+    VerifAssemblerSize(Request<(), Option<[usize; 8]>>),
 }
 
 /// verif-hooks: boxed read-only probe executed by the service under the tx-pool read lock
@@ -222,6 +225,15 @@ impl TxPoolController {
         done?;
         let r = slot.lock().expect("verif slot").take();
         r.ok_or_else(|| ckb_error::InternalErrorKind::System.other("verif_read: probe did not run").into())
+    }
+
+    /// verif-hooks: read-only, under the assembler's `current` lock:
+    /// `[size.txs, size.proposals, size.uncles, size.total, |uncles|, |proposals|,
+    ///   sum of the template transactions' sizes, basic_block_size(cellbase, uncles, proposals, extension)]`
+    /// (`None` when block assembly is disabled).
+    #[cfg(feature = "verif-hooks")]
+    pub fn verif_assembler_size(&self) -> Result<Option<[usize; 8]>, AnyError> {
+        send_message!(self, VerifAssemblerSize, ())
     }
 
     /// Return whether tx-pool service is started
@@ -1019,6 +1031,34 @@ async fn process(mut service: TxPoolService, message: Message) {
                 .unwrap_or(PoolTxDetailInfo::with_unknown());
             if let Err(e) = responder.send(tx_details) {
                 error!("responder send get_pool_tx_details failed {:?}", e)
+            };
+        }
+        #[cfg(feature = "verif-hooks")]
+        Message::VerifAssemblerSize(Request { responder, .. }) => {
+            let r = if let Some(ref ba) = service.block_assembler {
+                let cur = ba.current.lock().await;
+                let t = &cur.template;
+                let basic = BlockAssembler::basic_block_size(
+                    t.cellbase.data(),
+                    &t.uncles,
+                    t.proposals.iter(),
+                    t.extension.clone(),
+                );
+                Some([
+                    cur.size.txs,
+                    cur.size.proposals,
+                    cur.size.uncles,
+                    cur.size.total,
+                    t.uncles.len(),
+                    t.proposals.len(),
+                    t.transactions.iter().map(|e| e.size).sum(),
+                    basic,
+                ])
+            } else {
+                None
+            };
+            if let Err(e) = responder.send(r) {
+                error!("Responder sending verif_assembler_size failed {:?}", e)
             };
         }
         #[cfg(feature = "verif-hooks")]
